@@ -653,6 +653,17 @@ fn live_resolver(tier: &str, seed: u64) -> Case {
         if n % 50 == 0 { std::thread::sleep(Duration::from_millis(5)); }
     }
     let name = Name::new_unchecked("verif-res14._tcp.local");
+    // records of the asked type for the queried name that carry no RDATA at all (RDLENGTH 0: legal on the wire, parsed as
+    // records of that type without data): not an address, to be passed over
+    let empty_record = |name: &Name, ty: u16| -> Vec<u8> {
+        let mut b = vec![0u8, 0, 0x84, 0, 0, 0, 0, 1, 0, 0, 0, 0];
+        for l in name.get_labels() { b.push(l.len() as u8); b.extend_from_slice(l.as_bytes()); }
+        b.push(0);
+        b.extend_from_slice(&ty.to_be_bytes());
+        b.extend_from_slice(&[0, 1, 0, 0, 0, 5, 0, 0]);
+        b
+    };
+    for ty in [1u16, 28, 33, 16] { let _ = sock.send_to(&empty_record(&name, ty), dest); }
     // answers for the queried name that are not addresses, then the address
     for rd in [RData::TXT(simple_dns::rdata::TXT::new()), RData::A(A { address: 0x7F000009 })] {
         let mut p = Packet::new_reply(0);
@@ -683,6 +694,7 @@ fn live_resolver(tier: &str, seed: u64) -> Case {
         let mut only_srv = Packet::new_reply(0);
         only_srv.answers.push(ResourceRecord::new(hostile_name(&mut Rng::new(seed ^ 7)), CLASS::IN, 5, RData::A(A { address: 3 })));
         let _ = sock.send_to(&only_srv.build_bytes_vec_compressed().unwrap(), dest);
+        for ty in [33u16, 1, 28, 12] { let _ = sock.send_to(&empty_record(&pname, ty), dest); }
         let mut full = Packet::new_reply(0);
         full.answers.push(srv);
         full.additional_records.push(ResourceRecord::new(pname.clone(), CLASS::IN, 5, RData::A(A { address: 0x7F000009 })));
